@@ -133,8 +133,13 @@ func (v *Vue) Render(w io.Writer, filename string, data any) error {
 		return err
 	}
 
-	// Merge front-matter data into the provided data (front-matter is authoritative)
-	dataMap := toMapData(data)
+	// Merge front-matter data over the provided data (front-matter is authoritative).
+	// The merge goes into a fresh map: data may be the caller's own map.
+	passedData := toMapData(data)
+	dataMap := make(map[string]any, len(passedData)+len(frontMatter))
+	for k, v := range passedData {
+		dataMap[k] = v
+	}
 	for k, v := range frontMatter {
 		dataMap[k] = v
 	}
@@ -227,8 +232,13 @@ func (v *Vue) RenderFragment(w io.Writer, filename string, data any) error {
 		return err
 	}
 
-	// Merge front-matter data into the provided data (front-matter is authoritative)
-	dataMap := toMapData(data)
+	// Merge front-matter data over the provided data (front-matter is authoritative).
+	// The merge goes into a fresh map: data may be the caller's own map.
+	passedData := toMapData(data)
+	dataMap := make(map[string]any, len(passedData)+len(frontMatter))
+	for k, v := range passedData {
+		dataMap[k] = v
+	}
 	for k, v := range frontMatter {
 		dataMap[k] = v
 	}
